@@ -19,7 +19,7 @@ package internal
 //@ spec func binLevel(k uint32) int = ite(k < 1, 0, ite(k < 9, 1, ite(k < 73, 2, ite(k < 585, 3, ite(k < 4681, 4, 5)))))
 //@ spec func binBeg(k uint32) int = int(k - lvlOff(binLevel(k))) << uint32(lvlShift(binLevel(k)))
 //@ spec func binEnd(k uint32) int = binBeg(k) + (1 << uint32(lvlShift(binLevel(k))))
-//@ spec func binContains(k uint32, beg int, end int) bool = binBeg(k) <= beg && end <= binEnd(k)
+//@ opaque spec func binContains(k uint32, beg int, end int) bool = binBeg(k) <= beg && end <= binEnd(k)
 //@ spec func binOverlaps(k uint32, beg int, end int) bool = binBeg(k) < end && beg < binEnd(k)
 //@ spec func validIv(beg int, end int) bool = 0 <= beg && beg < end && end <= 536870912
 //@ spec func maxBin() uint32 = 37448
